@@ -12,7 +12,7 @@ package utils
 //verif:stub github.com/buger/jsonparser.ParseFloat verifStubJpParseFloat
 //verif:stub github.com/buger/jsonparser.ParseString verifStubJpParseString
 //verif:stub strconv.ParseUint verifStubParseUint
-//verif:bound every 64-bit integer timestamp v in the seconds band [1e9,4e9], the millisecond band [1e12,1e14] and the nanosecond band [1e18,2^63); number and string JSON forms
+//verif:bound every 64-bit integer timestamp v in the seconds band [1e9,4e9], the millisecond band [1e12,1e14] and the nanosecond band [1e18,2^63); integer-number, decimal-point-number (below 2^53) and string JSON forms
 //verif:outside RFC3339 strings (time.Parse), microsecond timestamps (no documented handling), float timestamps beyond 2^53, the JSON tokenizer itself
 //verif:assume jsonparser.Get/ParseInt/ParseString and strconv.ParseUint are contract stubs under the engine: they return the document's integer v exactly (ParseInt fails above MaxInt64 like the real one); natively the real parsers run on the decimal rendering of v
 
@@ -25,6 +25,7 @@ import (
 
 var verifTsVal uint64
 var verifTsIsString bool
+var verifTsFloatForm bool // a JSON number written with a decimal point / exponent
 
 func verifStubJpGet(data []byte, keys ...string) ([]byte, jp.ValueType, int, error) {
 	if verifTsIsString {
@@ -34,6 +35,9 @@ func verifStubJpGet(data []byte, keys ...string) ([]byte, jp.ValueType, int, err
 }
 
 func verifStubJpParseInt(b []byte) (int64, error) {
+	if verifTsFloatForm {
+		return 0, jp.MalformedValueError
+	}
 	if verifTsVal > 1<<63-1 {
 		return 0, jp.OverflowIntegerError
 	}
@@ -47,9 +51,16 @@ func verifStubJpParseString(b []byte) (string, error) { return "v", nil }
 func verifStubParseUint(s string, base int, bitSize int) (uint64, error) { return verifTsVal, nil }
 
 func verifC16Doc(v uint64, asString bool) []byte {
+	return verifC16DocForm(v, asString, false)
+}
+
+func verifC16DocForm(v uint64, asString bool, floatForm bool) []byte {
 	if zz.Symbolic() {
-		verifTsVal, verifTsIsString = v, asString
+		verifTsVal, verifTsIsString, verifTsFloatForm = v, asString, floatForm
 		return []byte("{}")
+	}
+	if floatForm {
+		return []byte(`{"timestamp":` + strconv.FormatUint(v, 10) + `.0}`)
 	}
 	if asString {
 		return []byte(`{"timestamp":"` + strconv.FormatUint(v, 10) + `"}`)
@@ -89,4 +100,11 @@ func VerifC16ExtractTimeStamp() {
 		zz.Assert(asNum == want, "nanos/number-form-to-ms")
 	}
 	zz.Assert(asNum != 0 && asStr != 0, "own-time-never-zero")
+	// the same instant written as a JSON number with a decimal point (1714352490251.0):
+	// exactly representable below 2^53, so the stored time must be the same
+	if v < 1<<53 {
+		asFlt := ExtractTimeStamp(verifC16DocForm(v, false, true), &key)
+		zz.Observe("flt", asFlt)
+		zz.Assert(asFlt == want, "float-form-number-same-instant")
+	}
 }
